@@ -34,6 +34,7 @@ def check(rep: Report, ctx: Ctx) -> None:
     r143(rep, ctx)
     r144(rep, ctx)
     r145(rep, ctx)
+    r146(rep, ctx)
 
 
 def r141(rep: Report, ctx: Ctx) -> None:
@@ -558,3 +559,56 @@ def r145(rep: Report, ctx: Ctx) -> None:
            "under 'mapping_config'", ok and len(stores) == 2, fi=gen,
            node=mk[0] if mk else gen.node,
            detail=f"{len(mk)} construction(s), {len(stores)} store(s)")
+
+
+def r146(rep: Report, ctx: Ctx) -> None:
+    """The saved files of a workflow are found whatever characters its name
+    contains: a user-supplied path is never interpreted as a pattern."""
+    rep.rule("R14.6", "file listings take user paths literally (no unescaped "
+             "glob / fnmatch pattern built from a path argument)", 1)
+    GLOBS = {"glob", "iglob", "rglob", "fnmatch", "fnmatchcase", "filter",
+             "translate"}
+    hits = []
+    n_listings = 0
+    for fi in ctx.index.all_functions():
+        defs = ctx.defs(fi)
+        for c in ast.walk(fi.node):
+            if not isinstance(c, ast.Call):
+                continue
+            d = dotted(c.func) or ""
+            last = d.split(".")[-1]
+            if last in ("walk", "listdir", "scandir") and d.startswith("os"):
+                n_listings += 1
+            is_glob = (d.split(".")[0] in ("glob", "fnmatch") and last in
+                       GLOBS) or last in ("glob", "iglob", "rglob")
+            if not is_glob or not c.args:
+                continue
+            n_listings += 1
+            pat = defs.resolve_deep(c.args[0])
+            tainted = []
+            parents = {ch: p for p in ast.walk(pat)
+                       for ch in ast.iter_child_nodes(p)}
+            for n in ast.walk(pat):
+                if isinstance(n, ast.Name) and defs.is_param(n.id):
+                    cur, escaped = n, False
+                    while cur in parents:
+                        cur = parents[cur]
+                        if isinstance(cur, ast.Call) and (dotted(cur.func)
+                                                          or "").endswith(
+                                "escape"):
+                            escaped = True
+                    if not escaped:
+                        tainted.append(n.id)
+            if tainted:
+                hits.append((fi, c, tainted))
+    rep.ob("R14.6", "no listing interprets a path argument as a pattern",
+           not hits, fi=hits[0][0] if hits else ctx.func("find_files"),
+           node=hits[0][1] if hits else ctx.func("find_files").node,
+           detail=("; ".join(f"{f.short}: '{unparse(c)[:60]}' builds its "
+                             f"pattern from {t} without glob.escape"
+                             for f, c, t in hits)
+                   + " -- a workflow name containing *, ? or [..] (otel2pv "
+                   "uses it as the folder name) matches other workflows' "
+                   "folders or nothing at all") if hits else
+           f"{n_listings} directory listing(s), none pattern-based on a "
+           "path argument")
